@@ -53,6 +53,7 @@ def fieldcover(repo, res, fq, enum, field, sink, rule="FIELDCOVER", min_matches=
 def _cover_one(repo, res, fn, fq, enum, field, sink, carriers, rule, mi):
     envs = A.collect_envs(fn)
     n = 0
+    pm = None
     for m in A.walk(fn.body):
         if m["k"] != "Match":
             continue
@@ -87,6 +88,19 @@ def _cover_one(repo, res, fn, fq, enum, field, sink, carriers, rule, mi):
                         calls = [c for c in A.walk(arm["body"]) if c["k"] == "MethodCall" and c["method"] == meth and any(x["k"] == "Path" and x["path"] == nm for a in c["args"] for x in A.walk(a))]
                         ok = bool(calls)
                         why = f"`{field}` is passed to .{meth}(..)" if ok else f"`{field}` is bound but never passed to .{meth}(..)"
+                        if not ok and uses:
+                            # the match PRODUCES what is added: it stands inside the argument of `.extend(..)` / `.insert(..)` (an
+                            # iterator of the values to add), and this arm's value is built from the field
+                            if pm is None:
+                                pm = A.parent_map(fn.body)
+                            cur = m
+                            while id(cur) in pm:
+                                par, key = pm[id(cur)]
+                                if par["k"] == "MethodCall" and key == "args" and par["method"] in (meth, "extend", "push", "insert"):
+                                    ok = True
+                                    why = f"`{field}` is yielded into .{par['method']}(..)"
+                                    break
+                                cur = par
                 res.check(ok, rule, f"{rule}:{fq}:match#{mi}:{v}.{field}", f"{enum}::{v}: {why}", f"{fn.file}:{arm['l']}")
         missing = carriers - seen
         # variants not named at all are covered by a wildcard arm: report
